@@ -79,7 +79,8 @@ type hsByzOp struct {
 }
 
 var hsBadKinds = []string{"connection", "te", "transfer-encoding", "keep-alive", "proxy-connection", "upgrade",
-	"uppercase", "no-method", "no-path", "pseudo-after-regular", "dup-path", "unknown-pseudo", "empty-path", "bad-value"}
+	"uppercase", "no-method", "no-path", "pseudo-after-regular", "dup-path", "unknown-pseudo", "empty-path", "bad-value",
+	"bad-value-crlf", "bad-method-value", "bad-authority-value", "bad-path-value", "bad-scheme-value"}
 
 func hsDrawHandler(c vs.Chooser, focus string, post bool) []hsHOp {
 	var ops []hsHOp
@@ -489,7 +490,11 @@ func (r *hsRun) encodeHeaders(st *hsStream) []byte {
 	if op.decl >= 0 {
 		regular = append(regular, kv{"content-length", strconv.Itoa(op.decl)})
 	}
-	if op.extraHdr > 0 {
+	if op.extraHdr > 0 && !(strings.HasPrefix(op.bad, "bad-") && strings.HasSuffix(op.bad, "-value") && op.bad != "bad-value") {
+		// (An invalid field that is FOLLOWED by a CONTINUATION frame is answered with
+		// a connection error by design - the Framer stops tracking the header list
+		// size after an invalid field - so the invalid pseudo-header values, which
+		// come first in the block, are not combined with a block that needs one.)
 		regular = append(regular, kv{"x-vf-pad", strings.Repeat("p", op.extraHdr)})
 	}
 	switch op.bad {
@@ -522,6 +527,16 @@ func (r *hsRun) encodeHeaders(st *hsStream) []byte {
 		fields[3].v = ""
 	case "bad-value":
 		regular = append(regular, kv{"x-bad", "a\x00b"})
+	case "bad-value-crlf":
+		regular = append(regular, kv{"x-bad", "a\r\nx-injected: 1"})
+	case "bad-method-value":
+		fields[0].v = []string{"GE\nT", "GET\r", "G\x00ET"}[st.idx%3]
+	case "bad-authority-value":
+		fields[2].v = []string{"vf\x00.test", "vf.test\nx-injected: 1", "vf.test\r"}[st.idx%3]
+	case "bad-path-value":
+		fields[3].v = []string{"/a\nb", "/a\x00", "/a\r\nx: y"}[st.idx%3]
+	case "bad-scheme-value":
+		fields[1].v = "htt\nps"
 	}
 	for _, f := range append(fields, regular...) {
 		r.henc.WriteField(hpack.HeaderField{Name: f.k, Value: f.v})
